@@ -6,7 +6,7 @@ Line-by-line transcription of the code that exists (Python 3 paths):
 
 * `string[a:b]` (with `0 ≤ a ≤ b`) is `(s.drop a).take (b - a)`; `len` is `List.length`;
 * `str_idx_as_int(s, i)` is `idx s i` and raises `IndexError` (`.indexError`) out of range — the readers keep
-  every such call, C11 proves the constructor unreachable from every reader except `read_number` on `b""`;
+  every such call, C11 proves the constructor unreachable from every reader;
 * `six.int2byte(n)` is `struct.Struct(">B").pack(n)`: `struct.error` (`.other`) unless `0 ≤ n ≤ 255`;
 * `"%x" % n` + left-pad to even length + `binascii.unhexlify` is `hexBytes n` (never empty);
 * `int(binascii.hexlify(s), 16)` is `beVal s`;
@@ -207,10 +207,12 @@ def readNumberLoop (s : Bytes) (number llen : Nat) : Res (Nat × Nat) :=
     if d &&& 0x80 = 0 then .ok (number, llen + 1)
     else readNumberLoop rest number (llen + 1)
 
-/-- `read_number(string)`; `str_idx_as_int(string, 0)` raises `IndexError` on `b""` -/
-def readNumber (s : Bytes) : Res (Nat × Nat) := do
-  let b0 ← idx s 0
-  if b0 = 0x80 then .error .unexpectedDER else readNumberLoop s 0 0
+/-- `read_number(string)`: `if not string: raise UnexpectedDER` (fix 23101b2), then the `0x80` test -/
+def readNumber (s : Bytes) : Res (Nat × Nat) :=
+  if s.isEmpty then .error .unexpectedDER
+  else do
+    let b0 ← idx s 0
+    if b0 = 0x80 then .error .unexpectedDER else readNumberLoop s 0 0
 
 /-- the `while body:` loop of `remove_object`; fuel = `body.length` (each round consumes ≥ 1 byte, so
 the fuel never runs out: `.other` is proved unreachable in `Proofs/DerOid.lean`) -/
